@@ -26,7 +26,7 @@ from .core import Result
 from .core import jdumps
 
 HOME = os.environ.get("VERIF_HOME", os.path.dirname(os.path.dirname(os.path.abspath(__file__))))
-MAX_VIOLATION_LINES = 12
+MAX_VIOLATION_LINES = int(os.environ.get("VERIF_MAX_VIOL_LINES", "12"))
 
 
 def load_check(pid: str) -> Check:
